@@ -33,6 +33,7 @@ FLOYD = {
     'near_dir3': (True, 3, (0, 0.1, 0.2, 0.3), None, 'q'),
     'near_und4': (False, 4, (0, 0.1, 0.2, 0.3), None, 'q'),
     'near2_und4': (False, 4, (0, 0.2, 0.4, 0.6), None, 'q'),
+    'near4_und5': (False, 5, (0, 0.2, 0.4), None, 'q'),
     'len_dir4': (True, 4, (0, 1, 2), None, 't'),
     'len_und5': (False, 5, (0, 1, 2), None, 't'),
     'near_und5': (False, 5, (0, 0.1, 0.2), None, 't'),
@@ -77,12 +78,19 @@ def lengths_for(X, transform):
 
 def check_floyd(t, X, transform, case):
     n = len(X)
+    exact = bool(np.all(np.mod(X * 64.0, 1.0) == 0))      # lengths are dyadic: float sums are exact
+    _viol = t.viol
+
+    def viol(fn, clause, c, **kw):
+        kw.setdefault('tags', {})
+        kw['tags'] = dict(kw['tags'], lengths_exact_in_binary=exact)
+        return _viol(fn, clause, c, **kw)
     M = lengths_for(X, transform)
     D, E = orc.shortest(M)
     st, out = guarded(bct.distance_wei_floyd, X.copy(), transform=transform)
     t.c['evaluations'] += 1
     if st != 'ok':
-        t.viol('distance_wei_floyd', 'raises', case, observed=out)
+        viol('distance_wei_floyd', 'raises', case, observed=out)
         return False
     SPL, hops, Pmat = out
     SPL = np.asarray(SPL, dtype=float)
@@ -93,32 +101,32 @@ def check_floyd(t, X, transform, case):
             st, path = guarded(bct.retrieve_shortest_path, s, tt, hops, Pmat)
             c = dict(case, s=s, t=tt)
             if st != 'ok':
-                t.viol('retrieve_shortest_path', 'raises', c, observed=path)
+                viol('retrieve_shortest_path', 'raises', c, observed=path)
                 continue
             p = [int(x) for x in np.asarray(path).ravel()]
             reachable = bool(np.isfinite(D[s, tt]))
             if not reachable:
                 if p:
-                    t.viol('retrieve_shortest_path', 'empty_iff_unreachable', c, observed=p, expected=[])
+                    viol('retrieve_shortest_path', 'empty_iff_unreachable', c, observed=p, expected=[])
                 if np.isfinite(SPL[s, tt]):
-                    t.viol('distance_wei_floyd', 'infinite_iff_unreachable', c, observed=SPL[s, tt])
+                    viol('distance_wei_floyd', 'infinite_iff_unreachable', c, observed=SPL[s, tt])
                 continue
             if not p:
-                t.viol('retrieve_shortest_path', 'empty_iff_unreachable', c, observed=p, expected='a path')
+                viol('retrieve_shortest_path', 'empty_iff_unreachable', c, observed=p, expected='a path')
                 continue
             if p[0] != s or p[-1] != tt:
-                t.viol('retrieve_shortest_path', 'endpoints', c, observed=p)
+                viol('retrieve_shortest_path', 'endpoints', c, observed=p)
                 continue
             if any(X[a, b] == 0 for a, b in zip(p[:-1], p[1:])):
-                t.viol('retrieve_shortest_path', 'steps_are_connections', c, observed=p)
+                viol('retrieve_shortest_path', 'steps_are_connections', c, observed=p)
                 continue
             if len(p) - 1 != hops[s, tt]:
-                t.viol('retrieve_shortest_path', 'hop_count', c, observed=p, expected=hops[s, tt])
+                viol('retrieve_shortest_path', 'hop_count', c, observed=p, expected=hops[s, tt])
             total = sum(M[a, b] for a, b in zip(p[:-1], p[1:]))
             if not orc.close(total, SPL[s, tt]):
-                t.viol('retrieve_shortest_path', 'reported_length', c, observed=total, expected=SPL[s, tt])
+                viol('retrieve_shortest_path', 'reported_length', c, observed=total, expected=SPL[s, tt])
             if not orc.close(SPL[s, tt], D[s, tt]):
-                t.viol('distance_wei_floyd', 'is_minimum', c, observed=SPL[s, tt], expected=D[s, tt])
+                viol('distance_wei_floyd', 'is_minimum', c, observed=SPL[s, tt], expected=D[s, tt])
     allowed = orc.hop_sets(D, E)
     fin = np.isfinite(D)
     return bool((not fin.all()) and any(len(allowed[u][v]) > 1 for u in range(n) for v in range(n)))
